@@ -2,3 +2,6 @@ import ThunderProofs.Properties.C06
 #print axioms TM.Properties.C06.gateway_eq_monolith_stitched
 #print axioms TM.Properties.C06.partition_independent
 #print axioms TM.Properties.C06.planSels_owned
+#print axioms TM.Properties.C06.gateway_eq_monolith
+#print axioms TM.Properties.C06.exec_pointwise
+#print axioms TM.Properties.C06.extract_stitch_aligned
